@@ -59,3 +59,95 @@ def _switch_driver_class(rule, n, default_on, vec_enabled, name):
 def switch_bits(vec) -> List[bool]:
     """Reads the raw state without raising Read events."""
     return [el._value == "On" for el in vec._elements.values()]
+
+
+# ---------------------------------------------------------------------------
+# A driver with all five vector kinds, two groups and inheritance (cached: it
+# declares no @on handlers).
+
+_RICH: Dict = {}
+NUMBER_VALUES = (0, 1, -2, 2.5, 12.25, 100)
+
+
+def rich_driver_classes():
+    from indi.device import Driver, properties
+    if "cls" in _RICH:
+        return _RICH["cls"]
+
+    class Base(Driver):
+        name = "BASE"
+        main = properties.Group("MAIN", vectors=dict(
+            txt=properties.TextVector("TXT", label="Text", elements=dict(
+                a=properties.Text("A", label="a label", default="alpha"), b=properties.Text("B", default="beta"))),
+            sw=properties.SwitchVector("SW", rule="OneOfMany", default_on="S0", elements=dict(
+                s0=properties.Switch("S0"), s1=properties.Switch("S1"), s2=properties.Switch("S2"))),
+        ))
+
+    class Mid(Base):
+        name = "MID"
+        aux = properties.Group("AUX", vectors=dict(
+            num=properties.NumberVector("NUM", perm="ro", elements=dict(
+                n=properties.Number("N", format="%.2f", min=-10, max=10, step=0.5, default=1),
+                m=properties.Number("M", format="%d", default=3),
+                s=properties.Number("S", format="%.3m", default=2.5))),
+            li=properties.LightVector("LI", elements=dict(l0=properties.Light("L0"), l1=properties.Light("L1", default="Busy"))),
+        ))
+
+    class Rich(Mid):
+        name = "DEV"
+        img = properties.Group("IMG", vectors=dict(
+            blob=properties.BLOBVector("BLOB", elements=dict(x=properties.BLOB("X"), y=properties.BLOB("Y"))),
+            any=properties.SwitchVector("ANY", rule="AnyOfMany", elements=dict(p=properties.Switch("P"), q=properties.Switch("Q"))),
+        ))
+
+    class Other(Driver):
+        name = "OTHER"
+        main = properties.Group("MAIN", vectors=dict(
+            txt=properties.TextVector("TXT", elements=dict(a=properties.Text("A", default="other")))))
+
+    _RICH["cls"] = (Rich, Other, Mid, Base)
+    return _RICH["cls"]
+
+
+def vector_kind(vec) -> str:
+    return type(vec).__name__.replace("Vector", "")
+
+
+def expected_def_view(vec, dev_name):
+    """What the definition of an enabled vector must say, computed from the
+    driver's public attributes and the INDI rules (numbers as the format
+    renders them).  Same shape as props.common.msg_view, timestamps dropped."""
+    from indi.device import values
+    kind = vector_kind(vec)
+    d = vec._definition
+    attrs = {"device": dev_name, "name": d.name, "group": vec.group.name, "label": d.label, "state": vec._state}
+    if kind != "Light":
+        attrs["perm"] = d.perm
+        attrs["timeout"] = str(d.timeout)
+    if kind == "Switch":
+        attrs["rule"] = d.rule
+    kids = []
+    for k, e in vec._elements.items():
+        if not e.enabled:
+            continue
+        ed = e._definition
+        ca = {"name": ed.name, "label": ed.label}
+        val = e._value
+        if kind == "Number":
+            ca.update(format=ed.format, step=str(ed.step))
+            # absent metadata cannot be rendered; whether the message is still a
+            # valid definition is the re-parse assertion's business
+            if ed.min is not None:
+                ca["min"] = str(ed.min)
+            if ed.max is not None:
+                ca["max"] = str(ed.max)
+            val = values.num_to_str(val, ed.format)
+        elif kind == "BLOB":
+            val = None
+        kids.append((f"Def{kind}", tuple(sorted(ca.items())), None if val is None else str(val)))
+    return (f"Def{kind}Vector", tuple(sorted(attrs.items())), None, tuple(kids))
+
+
+def strip_timestamp(view):
+    cls, attrs, val, kids = view
+    return (cls, tuple((k, v) for k, v in attrs if k != "timestamp"), val, kids)
